@@ -981,8 +981,9 @@ class TextXVisitor(RRELVisitor):
             # If attribute already exists in the metamodel it is
             # multiple assignment to the same attribute.
 
-            # Cannot use operator ?= on multiple assignments
-            if op == "?=":
+            # Cannot use operator ?= on multiple assignments (whichever of
+            # the assignments comes first)
+            if op == "?=" or getattr(cls._tx_attrs[attr_name], "bool_assignment", False):
                 line, col = self.grammar_parser.pos_to_linecol(node.position)
                 raise TextXSemanticError(
                     'Cannot use "?=" operator on multiple'
